@@ -1,22 +1,24 @@
 #!/bin/sh
-# tools/seedtest.sh <seed-dir> [property]  : apply a seeded change to /repo, confirm its demonstration fails with it
-# and passes without it, run the property's check against it, and undo the change straight afterwards.
-# Prints one summary line:  SEED <dir> property=<id> demo_clean=<rc> demo_patched=<rc> check_exit=<rc> <VIOLATION lines>
+# tools/seedtest.sh <seed-dir> [property] : apply a seeded change to a scratch copy of /repo (outside /repo and /verif,
+# removed afterwards), confirm its demonstration fails with it and passes without it, and run the property's check
+# against the changed copy (PYVC_REPO).  /repo itself is never touched, so this can run next to other checks.
+# Prints one summary line:  SEED <dir> property=<id> demo_clean=<rc> demo_patched=<rc> check_exit=<rc> violations=<n>
 SEED="$1"
 PID="${2:-$(python3 -c "import json,sys;print(json.load(open('$SEED/meta.json'))['property'])")}"
-cd /repo || exit 3
-if ! git diff --quiet; then echo "repo working tree not clean"; exit 3; fi
-DEMO_CLEAN=$(PYTHONPATH=/repo /venv/bin/python -W ignore "$SEED/demo.py" >/dev/null 2>&1; echo $?)
-if ! git apply "$SEED/patch.diff" 2>/tmp/seed_apply.err; then
-  echo "SEED $SEED property=$PID patch does not apply: $(head -1 /tmp/seed_apply.err)"; exit 2
-fi
-DEMO_PATCHED=$(PYTHONPATH=/repo /venv/bin/python -W ignore "$SEED/demo.py" >/dev/null 2>&1; echo $?)
 TMP=$(mktemp -d /tmp/seedrun.XXXXXX)
-cd /verif
-PYVC_EVIDENCE_DIR="$TMP/evidence" PYVC_REPLAY_DIR="$TMP/replays" ./check "$PID" > "$TMP/out.txt" 2>&1
+trap 'rm -rf "$TMP"' EXIT
+mkdir -p "$TMP/repo"
+rsync -a --exclude .git --exclude '*.pyc' --exclude __pycache__ /repo/ "$TMP/repo/"
+DEMO=demo.py
+[ -f "$SEED/$DEMO" ] || DEMO=$(cd "$SEED" && ls demo* | head -1)
+DEMO_CLEAN=$(cd "$TMP" && PYTHONPATH=/repo timeout 600 /venv/bin/python -W ignore "$SEED/$DEMO" >/dev/null 2>&1; echo $?)
+if ! (cd "$TMP/repo" && git apply "$SEED/patch.diff" 2>"$TMP/apply.err"); then
+  echo "SEED $SEED property=$PID patch does not apply: $(head -1 "$TMP/apply.err")"; exit 2
+fi
+DEMO_PATCHED=$(cd "$TMP" && PYTHONPATH="$TMP/repo" timeout 600 /venv/bin/python -W ignore "$SEED/$DEMO" >/dev/null 2>&1; echo $?)
+cd "$(dirname "$0")/.."
+PYVC_REPO="$TMP/repo" PYVC_EVIDENCE_DIR="$TMP/evidence" PYVC_REPLAY_DIR="$TMP/replays" ./check "$PID" --tier "${TIER:-quick}" > "$TMP/out.txt" 2>&1
 RC=$?
-git -C /repo checkout -- .
 V=$(grep -c "^VIOLATION" "$TMP/out.txt")
 echo "SEED $SEED property=$PID demo_clean=$DEMO_CLEAN demo_patched=$DEMO_PATCHED check_exit=$RC violations=$V"
 grep "^VIOLATION\|^FAILED-OBLIGATION\|^UNDECIDED\|^CHECKER" "$TMP/out.txt" | cut -c1-260 | head -${SHOW:-4}
-rm -rf "$TMP"
